@@ -283,6 +283,45 @@ fn check_in_packet(input: &super::c10::ParseIn, case: &mut Case) -> Result<(), F
     super::c10::check_parse(input, case).map_err(|f| Fail::new(format!("c06:in-packet:{}", f.sig.trim_start_matches("c10:")), f.msg))
 }
 
+/// a record whose RDATA holds names followed by fixed fields (SOA, MINFO, RP, MX, SRV, NAPTR, KX, ...), encoded with
+/// foreign compression and an RDLENGTH that is 1..3 octets larger than its content, followed by another record: if
+/// the library accepts the surplus, the fields behind the names must still be read right after the names
+fn check_in_surplus(input: &(ARecord, Vec<u8>, Bytes), case: &mut Case) -> Result<(), Fail> {
+    let (rec, choices, surplus) = input;
+    let code = rec.rdata.code();
+    let mut p = APacket { id: 1, flags: 0x8400, ..Default::default() };
+    p.questions.push(AQuestion { name: rec.name.clone(), qtype: 255, qclass: 1, unicast: false });
+    p.answers.push(rec.clone());
+    p.answers.push(ARecord { name: AName::from_strs(&["t", "example"]), class: 1, cache_flush: false, ttl: 1, rdata: ARData::Typed { code: 1, fields: vec![Val::U32(0x7f000001)] } });
+    let mut opts = if choices.is_empty() { EncOpts::plain() } else { EncOpts::foreign(choices.clone()) };
+    opts.tweaks.insert((1, 0), Tweak { surplus: surplus.clone(), shrink: 0 });
+    let wire = encode_message(&p, &opts);
+    case.class(format!("type:{}", code));
+    let Ok(pk) = parse(&wire)? else {
+        case.class("surplus-rejected:no-claim");
+        return Ok(());
+    };
+    case.class("surplus-accepted");
+    case.nontrivial = true;
+    ensure!(pk.answers.len() == 2, "c06:in-packet-surplus:count", "answers: {}", pk.answers.len());
+    let o = lib("observe", || crate::bridge::observe_record(&pk.answers[0]))?;
+    ensure!(o == *rec, "c06:in-packet-surplus:fields", "type {} with {} surplus octets parsed as {:?}, expected {:?}", code, surplus.len(), o.rdata, rec.rdata);
+    let t = lib("observe", || crate::bridge::observe_record(&pk.answers[1]))?;
+    ensure!(t == p.answers[1], "c06:in-packet-surplus:next", "the record after a type {} record with surplus octets parsed as {:?}", code, t);
+    Ok(())
+}
+
+fn surplus_strategy(_t: Tier) -> BoxedStrategy<(ARecord, Vec<u8>, Bytes)> {
+    // types with at least one embedded name
+    let with_names: Vec<u16> = crate::gen::record_codes().into_iter().filter(|c| type_info(*c).map(|i| i.fields.iter().any(|f| matches!(f.kind, Kind::Name(_) | Kind::Gateway))).unwrap_or(false)).collect();
+    (
+        proptest::sample::select(with_names).prop_flat_map(|c| crate::gen::arecord_with(crate::gen::typed(c))),
+        vec(any::<u8>(), 0..6),
+        vec(any::<u8>(), 1..=3).prop_map(Bytes),
+    )
+        .boxed()
+}
+
 fn check_in_large(input: &(crate::gen::Sharing, Vec<u8>), case: &mut Case) -> Result<(), Fail> {
     let p = input.0.assemble();
     let opts = if input.1.is_empty() { EncOpts::compressed() } else { EncOpts::foreign(input.1.clone()) };
@@ -307,7 +346,7 @@ fn large_strategy(t: Tier) -> BoxedStrategy<(crate::gen::Sharing, Vec<u8>)> {
 pub fn def() -> CheckDef {
     CheckDef {
         id: "C06",
-        rule: "library name decoder (hook Name::verif_parse) vs an independent RFC 1035 4.1.4 decoder with a visited set: (1) bounded-exhaustive: every buffer of length <= 6 (7 thorough) over {00,01,02,03,04,05,3f,40,80,c0,ff,'a'} decoded at every start offset; (2) names of 250..=258 wire bytes from 5 label sizes, direct and through a pointer; (2b) chains of 0..4000 strictly backward pointer hops onto names of 0..127 labels, and every reserved-type octet 0x40..=0xBF with 0..260 bytes behind it; (3) random 'soups' of labels (1..4, 30..40, 61..63 bytes), terminators, pointers to earlier pieces, absolute pointers (into the prefix, forward, out of range) and reserved-type octets, decoded at every piece start; (4) through Packet::parse: every record type reference-encoded with foreign compression (pointers inside all RDATA names) followed by another record, and suffix-sharing messages up to 64 KiB whose pointers reach offsets up to 16383, observed field by field. Oracle: library Ok => same labels and same resume offset, labels 1..=63, wire <= 255; reference error (cycle, out of range, reserved type, too long, truncated) => library Err; reference Ok with only backward pointers and <= 32 hops => library Ok. Non-trivial = the reference decode met a pointer, >= 2 labels or an error; evaluations count (buffer, offset) pairs",
+        rule: "library name decoder (hook Name::verif_parse) vs an independent RFC 1035 4.1.4 decoder with a visited set: (1) bounded-exhaustive: every buffer of length <= 6 (7 thorough) over {00,01,02,03,04,05,3f,40,80,c0,ff,'a'} decoded at every start offset; (2) names of 250..=258 wire bytes from 5 label sizes, direct and through a pointer; (2b) chains of 0..4000 strictly backward pointer hops onto names of 0..127 labels, and every reserved-type octet 0x40..=0xBF with 0..260 bytes behind it; (3) random 'soups' of labels (1..4, 30..40, 61..63 bytes), terminators, pointers to earlier pieces, absolute pointers (into the prefix, forward, out of range) and reserved-type octets, decoded at every piece start; (4) through Packet::parse: every record type reference-encoded with foreign compression (pointers inside all RDATA names) followed by another record; the same for the types with embedded names when RDLENGTH exceeds the content by 1..3 octets (if the library accepts the surplus, the fields behind the names and the next record must be unaffected); and suffix-sharing messages up to 64 KiB whose pointers reach offsets up to 16383, observed field by field. Oracle: library Ok => same labels and same resume offset, labels 1..=63, wire <= 255; reference error (cycle, out of range, reserved type, too long, truncated) => library Err; reference Ok with only backward pointers and <= 32 hops => library Ok. Non-trivial = the reference decode met a pointer, >= 2 labels or an error; evaluations count (buffer, offset) pairs",
         assumptions: vec!["forward pointers and chains longer than 32 hops may be refused (no claim)"],
         sections: vec![
             Box::new(ReplayOnly { name: "fuzz-bytes", check: check_raw }),
@@ -316,6 +355,7 @@ pub fn def() -> CheckDef {
             Box::new(EnumSection { name: "chains", rule: "0..4000 strictly backward pointer hops onto names of 0..127 labels", enumerate: enum_chains, check: check_chain, exhaustive: true }),
             Box::new(EnumSection { name: "reserved-types", rule: "every octet 0x40..=0xBF as a label type with 0..260 bytes behind it", enumerate: enum_reserved, check: check_reserved, exhaustive: true }),
             Box::new(PropSection { name: "in-packet", rule: "names in question / owner / RDATA positions of every type", strategy: super::c10::parse_strategy, cases: (100_000, 1_500_000), check: check_in_packet }),
+            Box::new(PropSection { name: "in-packet-surplus", rule: "names followed by fixed fields inside RDATA with surplus octets", strategy: surplus_strategy, cases: (60_000, 600_000), check: check_in_surplus }),
             Box::new(PropSection { name: "in-packet-large", rule: "pointers to offsets up to 16383 in large messages", strategy: large_strategy, cases: (30_000, 300_000), check: check_in_large }),
             Box::new(PropSection { name: "soups", rule: "random name soups", strategy: soup_strategy, cases: (300_000, 4_000_000), check: check_soup }),
         ],
